@@ -252,6 +252,11 @@ fn exec_read(
     let Some(path) = fs.open_handles.get(&fd).cloned() else {
         return -EBADF;
     };
+    // Descriptor not open for reading: read(2) fails with EBADF and
+    // touches nothing, like `File::read_at` refuses it.
+    if fs.unreadable_fds.contains(&fd) {
+        return -EBADF;
+    }
 
     // O_DIRECT: enforce ptr/offset/len alignment, mirroring
     // shim::std::fs::File::read_at_internal. Real io_uring on a
@@ -306,6 +311,11 @@ fn exec_write(
     let Some(path) = fs.open_handles.get(&fd).cloned() else {
         return -EBADF;
     };
+    // Descriptor not open for writing: write(2) fails with EBADF and
+    // the file is left alone, like `File::write_at` refuses it.
+    if fs.unwritable_fds.contains(&fd) {
+        return -EBADF;
+    }
 
     // O_DIRECT alignment, see exec_read for the rationale.
     if fs.direct_io_fds.contains(&fd) && !direct_io_aligned(fs, ptr as usize, offset, len) {
